@@ -258,3 +258,14 @@ def fn_poly_square(x):
 @onnx_function(unique=True)
 def fn_poly_square_unique(x):
     return x * x + x
+
+
+@onnx_function
+def fn_transpose_reduce(x):
+    # Transpose -> ReduceMean(keepdims) -> inverse Transpose inside a function body (folded by the optimizer)
+    return jnp.transpose(jnp.mean(jnp.transpose(x, (0, 2, 1)), axis=1, keepdims=True), (0, 2, 1))
+
+
+@onnx_function
+def fn_first_of_two(x, y):
+    return x
